@@ -5,6 +5,12 @@ open HydroVerif HydroVerif.C04
 /-- entries that are not finite are "null" (the code filters with `np.isfinite`) -/
 def optF (x : Float) : Option Float := if x.isFinite then some x else none
 
+/-- NaN entries are `none` for the ensemble statistic (`nanmean` / `nanmedian`) -/
+def optNaN (x : Float) : Option Float := if x.isNaN then none else some x
+
+def statOf (s : String) : Option Stat :=
+  if s = "mean" then some .mean else if s = "median" then some .median else none
+
 def fmtO : Option Float → String
   | none => "none"
   | some x => "some " ++ hexOfFloat x
@@ -49,6 +55,19 @@ def handle (toks : List String) : String :=
     match floatTok? eps, parseFloatList? o, parseFloatList? s with
     | some eps, some o, some s => fmtO (corrSpearman eps o s)
     | _, _, _ => "bad-op"
+  | ["ensstat", st, row] =>
+    match statOf st, parseFloatList? row with
+    | some st, some row => fmtO ((ensStat st (row.map optNaN)).bind optNaN)   -- inf - inf: a NaN value is NaN
+    | _, _ => "bad-op"
+  | ["corrfull", eps, ty, st, excl, tobs, tens] =>
+    match floatTok? eps, statOf st, parseFloatList? tobs, parseFloatMat? tens with
+    | some eps, some st, some tobs, some tens =>
+      match corrFull (fun x : Float => x.isFinite) eps (ty == "Spearman") st (excl == "1")
+          (tobs.map optNaN) (tens.map fun r => r.map optNaN) with
+      | .value v => if v.isNaN then "none" else "some " ++ hexOfFloat v   -- a NaN value is the NaN result
+      | .nan => "none"
+      | .noValidData => "err noValidData"
+    | _, _, _, _ => "bad-op"
   | ["nonull", o, s] =>
     match parseFloatList? o, parseFloatList? s with
     | some o, some s =>
